@@ -1,0 +1,15 @@
+//go:build verif
+
+// Contracts for package common, checked by /verif (govc). Comment-only file: with the
+// verif tag off it is not part of the build, with it on it adds only this package clause.
+package common
+
+// Posting to the outbound re-observation queue never blocks: it either enqueues or
+// reports ErrChanFull at once.
+//@ func PostObservationRequest(c chan<- *gossipv1.ObservationRequest, req *gossipv1.ObservationRequest) (err error)
+//@   props C17 C14
+//@   nonblocking
+//@   ensures [sent-or-full] (err == nil && nsent(c) == old(nsent(c)) + 1 && lastsent(c) == req) || (err == ErrChanFull && nsent(c) == old(nsent(c)))
+//@   ensures [others] unchangedExcept("chan", c)
+//@   modifies chan
+//@   nopanic
